@@ -108,15 +108,16 @@ fn gen_case(prop: &str, seed: u64, i: u64, corpus: &Corpus) -> Case {
     // string literals by adjacency of escape sequences and target-language special characters:
     // printed, concatenated and compared (the window of the enumeration moves with seed and i)
     let total = crate::exprgen::string_literal_count(true);
-    let start = (seed as usize).wrapping_mul(7919).wrapping_add(i as usize * 48) % total;
+    // consecutive windows: the tables of one quick run together cover the whole enumeration
+    let start = (seed as usize).wrapping_mul(7919).wrapping_add((i / 20) as usize * 96) % total;
     let mut body = String::new();
-    for k in 0..48 {
+    for k in 0..96 {
       let lit = crate::exprgen::string_literal(start + k, true);
       let next = crate::exprgen::string_literal(start + k + 1, true);
       body.push_str(&format!("    Process.println(\"[\" :: {lit} :: \"]\");\n    Process.println(Main.b({lit} == {next}) :: Main.b({lit} :: \"\" == {lit}) :: Main.b(Main.id({lit}) == {lit}));\n"));
     }
     let text = format!("class Main {{\n  function b(x: bool): Str = if x {{ \"T\" }} else {{ \"F\" }}\n  function id(s: Str): Str = s\n  function main(): unit = {{\n{body}  }}\n}}\n");
-    return Case { kind: "string-table".into(), label: format!("string literals {start}..{}", start + 48), user: Project::single("str.Table", &text), entry: "str.Table".into(), features: BTreeSet::new() };
+    return Case { kind: "string-table".into(), label: format!("string literals {start}..{}", start + 96), user: Project::single("str.Table", &text), entry: "str.Table".into(), features: BTreeSet::new() };
   }
   let table_every = if prop == "C04" { 12 } else { 60 };
   if i % table_every == 1 {
@@ -298,6 +299,46 @@ fn worker(prop: &str, ctx: WorkerCtx) {
           v["ts_native"] = json!("differ");
           v["ts_native_detail"] = json!({"what": diffexec::describe_diff("the type-erased TypeScript", t, "the TypeScript under --experimental-strip-types", r), "replay": diffexec::render_project(&case.user)});
         }
+      }
+      // several entry points at once, one of them reachable from the other (C03): the compiler
+      // must not crash, the module must validate, and each entry must behave as when compiled alone
+      if prop == "C03" && case.kind == "generated" && i % 4 == 0 && o.wasm_trace.as_ref().map(|t| matches!(t.ending, Ending::Return)).unwrap_or(false) {
+        let mut p2 = case.user.clone();
+        p2.modules.push(("multi.Helper".into(), format!("import {{ Main }} from {}\nclass Helper {{ function run(): unit = Main.main() }}\n", case.entry)));
+        p2.modules.push(("multi.Second".into(), "import { Helper } from multi.Helper\nclass Main { function main(): unit = { Helper.run(); Process.println(\"second entry point\"); } }\n".into()));
+        let full = p2.clone().with_std();
+        let mut multi = json!({});
+        for (order, entries) in [("entry-first", vec![case.entry.as_str(), "multi.Second"]), ("entry-second", vec!["multi.Second", case.entry.as_str()])] {
+          match pool::catch(std::panic::AssertUnwindSafe(|| crate::front::compile_project_multi(&full, &entries))) {
+            Err(e) => judged.push((format!("compile-panic:multi-entry:{}", e.rsplit(" @ ").next().unwrap_or("").replace("/repo/", "")), format!("compile_sources panicked with two entry points ({order}), one calling the other's main: {}", e.chars().take(300).collect::<String>()))),
+            Ok(Err(d)) => judged.push(("compile-rejected:multi-entry".into(), format!("two entry points ({order}) are rejected although each module is accepted: {}", d.chars().take(200).collect::<String>()))),
+            Ok(Ok((wasm, per))) => match crate::wasmi::validate(&wasm) {
+              Err(e) => judged.push(("wasm-invalid:multi-entry".into(), format!("two entry points ({order}): the emitted module is invalid: {e}"))),
+              Ok(()) => {
+                let want = o.wasm_trace.as_ref().unwrap();
+                for (k, (_, main_fn)) in per.iter().enumerate() {
+                  let (t, _) = crate::wasmi::run(&wasm, main_fn, &lim);
+                  let is_entry = entries[k] == case.entry;
+                  let mut expect = want.lines.clone();
+                  if !is_entry {
+                    expect.push("second entry point".into());
+                  }
+                  if matches!(t.ending, Ending::StepLimit | Ending::Harness(_)) {
+                    continue;
+                  }
+                  // what is printed is C01's subject (and the optimizer may legitimately take other
+                  // decisions with a second caller); C03 asks that neither entry ends in an engine fault
+                  let _ = expect;
+                  if matches!(t.ending, Ending::Fault { .. } | Ending::NoArmMatched) {
+                    judged.push((format!("wasm-fault:multi-entry:{}", match &t.ending { Ending::Fault { kind, .. } => kind.clone(), _ => "NoArmMatched".into() }), format!("two entry points ({order}): main of {} ends {:?} after {} lines; compiled alone the program prints {} lines and returns", entries[k], t.ending, t.lines.len(), want.lines.len())));
+                  }
+                }
+                multi[order] = json!("ok");
+              }
+            },
+          }
+        }
+        v["multi_entry"] = multi;
       }
       for (symptom, what) in judged {
         // cause attribution by intervention: if replacing the emitted `Math.floor(a / b)` by
